@@ -189,3 +189,34 @@ def datetime_variables_unchanged(h1: int, h2: int, off: int) -> bool:
 
 
 T_DT = parse_all({'sub': '$d - $e', 'lt': '$d lt $e'})
+
+
+# --- added after seeded-change review: adjust-*-to-timezone and implicit timezone must not modify the caller's values -------------
+
+from elementpath.datatypes import Date, Time, DayTimeDuration  # noqa: E402
+T_ADJ = parse_all({'dt': 'adjust-dateTime-to-timezone($d)', 'dt2': 'adjust-dateTime-to-timezone($d, $z)', 'dte': 'adjust-dateTime-to-timezone($d, ())',
+                   'd': 'adjust-date-to-timezone($e)', 't': 'adjust-time-to-timezone($t, $z)', 'again': '($d, adjust-dateTime-to-timezone($d), $d)'})
+OFFS = (-840, -90, -30, 0, 30, 330, 840)
+
+
+@ob(budget=60, tbudget=600, kind='hunt', bound='(bug-hunting: CrossHair reports non-determinism in the datetime model) xs:dateTime/date/time variables with/without a timezone (7 offsets chosen by the solver), implicit timezone and explicit target timezone from the same set: the caller\'s values keep their timezone and value',
+    funcs=['elementpath/xpath_tokens/base.py:adjust_datetime', 'elementpath/xpath2/_xpath2_functions.py:adjust-*-to-timezone'])
+def adjust_timezone_pure(has_tz: bool, oi: int, zi: int, ii: int) -> bool:
+    """
+    pre: 0 <= oi <= 6 and 0 <= zi <= 6 and 0 <= ii <= 6
+    post: _
+    """
+    tz = Timezone(datetime.timedelta(minutes=OFFS[oi])) if has_tz else None
+    d = DateTime(2000, 1, 1, 12, 0, 0, tzinfo=tz)
+    e = Date(2000, 1, 1, tzinfo=tz)
+    t = Time(12, 0, 0, tzinfo=tz)
+    z = DayTimeDuration(seconds=OFFS[zi] * 60)
+    v = {'d': d, 'e': e, 't': t, 'z': z}
+    snap = (str(d), str(e), str(t))
+    ctx = lambda: XPathContext(item=1, variables=v, timezone=Timezone(datetime.timedelta(minutes=OFFS[ii])))   # noqa: E731
+    for k in ('dt', 'dt2', 'dte', 'd', 't'):
+        T_ADJ[k].evaluate(ctx())
+        if (str(d), str(e), str(t)) != snap or d.tzinfo is not tz or e.tzinfo is not tz or t.tzinfo is not tz:
+            return False
+    r = L(T_ADJ['again'].evaluate(ctx()))
+    return str(r[0]) == snap[0] and str(r[2]) == snap[0]
